@@ -121,12 +121,17 @@ package parsley
 //@   ensures  [inrange] 1 <= fs.offset[i] + o1 && fs.offset[i] + o1 < fs.pos
 
 //@ -- errors.New returns a *errors.errorString: not a parsley.Error, nothing to unwrap
+//@ -- ErrFormat: the format (or the text) an error value was built from, as far as the contracts follow it (C06: the
+//@ -- form of the message)
+//@ abstract func ErrFormat(e error) string
 //@ assume func errors.New(text string) (r error)
 //@   ensures r != nil && !typeis[Error](r) && !IsWsErr(r) && !IsNotFound(r)
+//@   ensures ErrFormat(r) == text
 //@   assigns nothing
 
 //@ assume func fmt.Errorf(format string, a ...interface{}) (r error)
 //@   ensures r != nil
+//@   ensures ErrFormat(r) == format
 //@   assigns nothing
 
 //@ func NewFileSet(files ...File) (r *FileSet)
@@ -145,6 +150,7 @@ package parsley
 //@   ensures  r != nil
 //@   ensures  [unknown] (e.Pos() == 0 || int(e.Pos()) >= fs.pos) ==> same(r, e)
 //@   assert_at call:Errorf#1 [format;C06] lastarg[string](0) == "%s at %s"
+//@   ensures  [format-res;C06] !same(r, e) ==> ErrFormat(r) == "%s at %s"
 //@   assigns  fields[File]()
 
 //@ -- -------------------------------------------------- context, cache, Parser
@@ -465,6 +471,7 @@ package parsley
 //@   requires GhostFloorPos < ctx.reader.Pos(0)
 //@   ensures  [one-of;C04] (n == nil) != (err == nil)
 //@   ensures  [valid] n != nil ==> NodeOK(n)
+//@   ensures  [wrapped;C06] callres[Error](1, 2) != nil || callres[Node](1, 0) == nil ==> err != nil && (ErrFormat(err) == "failed to parse the input: %w" || ErrFormat(err) == "failed to parse the input")
 //@   assert_at call:ErrorWithPosition#1 [ws-wins;C10] callres[Error](1, 2) != nil && IsWsErr(callres[Error](1, 2)) ==> same(lastarg[Error](1), callres[Error](1, 2))
 //@   assert_at call:ErrorWithPosition#1 [furthest;C06] callres[Error](1, 2) != nil && !IsWsErr(callres[Error](1, 2)) ==> lastarg[Error](1) != nil && lastarg[Error](1).Pos() >= callres[Error](1, 2).Pos() && (ctx.err != nil ==> lastarg[Error](1).Pos() >= ctx.err.Pos())
 //@   assigns  ctx.err, ctx.callCount, fields[Node](), fields[File](), elems[[]Node](), maps[ResultCache](), maps[map[Pos]*Result](), maps[map[string]*regexp.Regexp](), GhostCurtailed, GhostMaxFail, GhostCalls, GhostFloorPos, GhostFloorLrc, GhostLo, GhostHi
